@@ -177,7 +177,7 @@ def _distinct_strengths(prof):
 
 def generate(rng, tier):
     F = list(fams().values())
-    per = 12 if tier == 'quick' else 900
+    per = 12 if tier == 'quick' else 400
     hs_budget = 120 if tier == 'quick' else 1500
     for f in F:
         made = 0
